@@ -16,8 +16,8 @@ CONSTANTS
 
 def plan(tier):
     if tier == "quick":
-        return [("fullA", 2), ("fullB", 2), ("fullC", 2), ("fullD", 2), ("fullE", 2), ("fullF", 2), ("fullN", 2), ("fullDcr", 2), ("fullAcrlf", 2)]
-    return [("fullA", 3), ("fullB", 3), ("fullC", 3), ("fullD", 3), ("fullE", 3), ("fullF", 3), ("fullN", 3), ("fullDcr", 3), ("fullAcrlf", 3)]
+        return [("fullA", 2), ("fullB", 2), ("fullC", 2), ("fullD", 2), ("fullE", 2), ("fullF", 2), ("fullN", 2), ("fullDcr", 2), ("fullAcrlf", 2), ("fullG", 2), ("fullGcr", 2), ("fullGcrlf", 2), ("fullH", 2)]
+    return [("fullA", 3), ("fullB", 3), ("fullC", 3), ("fullD", 3), ("fullE", 3), ("fullF", 3), ("fullN", 3), ("fullDcr", 3), ("fullAcrlf", 3), ("fullG", 3), ("fullGcr", 2), ("fullGcrlf", 3), ("fullH", 3)]
 
 
 def run_oracle(ctx, plan_override=None, part="default"):
